@@ -166,6 +166,32 @@ def _skeleton(model: Model, f: FunctionInfo):
     return ev, outs
 
 
+def _rejections(L, outer):
+    """Early ``return <v>`` exits of a (nested) scan: [(domains outermost first, bound elements, condition, value)].  ``if any(c(b) for b in D):
+    return v`` inside a loop is the inner scan loop ``for b in D: if c(b): return v``."""
+    out = []
+    elem = ("bound", "for", L.node.lineno, show(L.term))
+    for bp in L.extra["paths"]:
+        if bp.exit == "return" and not any(e.kind == "loopexit" for e in bp.events):
+            c = bp.cond
+            if c[0] == "quant" and c[1] == "any" and c[2][0] == "comp" and len(c[2][3]) == 1 and not c[2][3][0][1]:
+                dom2 = c[2][3][0][0]
+                b2 = subterms(c[2][2], lambda y: y[0] == "bound" and isinstance(y[1], int) and y[3] == show(dom2))
+                out.append((outer + [L.term, dom2], [elem, b2[0] if len(b2) == 1 else None], c[2][2], bp.value))
+            else:
+                out.append((outer + [L.term], [elem], c, bp.value))
+        for e in bp.events:
+            if e.kind == "loop" and e.term is not None:
+                for doms, bounds, c, v in _rejections(e, outer + [L.term]):
+                    out.append((doms, [elem] + bounds, c, v))
+    # one entry per distinct test (several body paths may reach the same inner loop)
+    uniq = []
+    for r in out:
+        if r not in uniq:
+            uniq.append(r)
+    return uniq
+
+
 def q4_q5(model: Model, rep: Report):
     rep.rule("C16.Q4", "get_requires_parking(element, edge_ids): False unless element neighbours some gate (over ALL edge_ids) and is part of none of them; then "
                        "any(neighbour_group.is_higher_than(own group) and on_moving_side(neighbour, its gate)) over all involved neighbours")
@@ -214,8 +240,7 @@ def q4_q5(model: Model, rep: Report):
         if len(comp[3]) != 1 or comp[3][0][1]:
             return False, "filtered or multi-generator quantifier"
         it = comp[3][0][0]
-        if not (it[0] == "call" and it[1] == "zip" and len(it[2]) == 3):
-            return False, f"ranges over {show(it)}"
+        known_domain = it[0] == "call" and it[1] == "zip" and len(it[2]) == 3
         elt = comp[2]
         parts = list(elt[1]) if elt[0] == "and" else [elt]
         if len(parts) != 2:
@@ -233,6 +258,9 @@ def q4_q5(model: Model, rep: Report):
             return False, f"compares against {show(own[0]) if own else None} instead of the element's own group"
         if not subterms(c1[0][1][1], lambda y: y[0] == "item"):
             return False, "the comparison is not made for the neighbour's group"
+        if not known_domain:
+            # the predicate is right; how the (neighbour, gate, group) triples are collected is written in a way this rule does not read
+            raise AnalysisError(f"requires-parking / requires-idle: the quantifier ranges over {show(it)[:160]}, not over the zipped neighbour / gate / group lists; nothing decided about the domain")
         # zip arguments: three lists built from neighbours that are involved (no slices)
         for z in it[2]:
             src = z[3] if z[0] == "var" else z
@@ -343,42 +371,63 @@ def q6(model: Model, rep: Report):
     ps = PathEnumerator(ev).function_paths(f, self_cls=G)
     s = sym(f.self_name)
     n = 0
+    from ..listflow import as_single_comp
     for p in [q for q in ps if q.exit == "return"]:
         n += 1
-        loops = [e for e in p.events if e.kind == "loop"]
-        if len(loops) != 1:
-            raise AnalysisError("construct_allowed_gate_sequences: outer loop not found")
-        L = loops[0]
-        seq = ("bound", "for", L.node.lineno, show(L.term))
-        src_ok = "generate_unique_subgroup_combinations" in show(L.term) and not subterms(L.term, lambda y: y[0] == "slice")
-        rep.check(src_ok, "C16.Q6", "construct_allowed_gate_sequences[groupings]", f.loc, found=show(L.term), required="all groupings of the edge indices", what="not every grouping is considered", detail="groupings")
+        v0 = p.value
+        kept = dict(v0[2]).get("index_pointers") if v0 is not None and v0[0] == "new" else None
+        comp = as_single_comp(p, kept) if kept is not None else None
+        while comp is not None and comp[0] == "var" and comp[3][0] == "comp":
+            comp = comp[3]
+        if comp is None or comp[0] != "comp" or len(comp[3]) != 1:
+            raise AnalysisError(f"construct_allowed_gate_sequences: the kept groupings are not read as a filtered list of all groupings ({show(kept)[:120] if kept else None})")
+        dom, conds = comp[3][0]
+        src_ok = "generate_unique_subgroup_combinations" in show(dom) and not subterms(dom, lambda y: y[0] == "slice")
+        rep.check(src_ok, "C16.Q6", "construct_allowed_gate_sequences[groupings]", f.loc, found=show(dom), required="all groupings of the edge indices", what="not every grouping is considered", detail="groupings")
+        bs = subterms(comp, lambda y: y[0] == "bound" and y[3] == show(dom))
         bad = []
-        for bp in L.extra["paths"]:
-            inner = [e for e in bp.events if e.kind == "loop"]
-            if len(inner) != 1 or inner[0].term != seq:
+        seq = bs[0] if len(bs) == 1 else None
+        if seq is None or comp[2] != seq:
+            bad.append("what is kept is not the grouping itself")
+        if not conds:
+            bad.append("a grouping is kept unconditionally")
+        acc = t_and(*conds) if conds else TRUE
+        # an acceptance method of the generator called with the grouping: read its body
+        if acc[0] == "call" and isinstance(acc[1], tuple) and acc[1][0] == "attr" and acc[1][1] == s and seq is not None and (list(acc[2]) + [x for _, x in acc[3]]) == [seq]:
+            h = G.resolve(acc[1][2])
+            if h is not None:
+                try:
+                    hv = Evaluator(model, inline_methods=False).value_of(h, self_cls=G)
+                    hp = [pn for pn in h.param_names if pn != h.self_name]
+                    if len(hp) == 1:
+                        # read the method on its own parameter (bound names inside it refer to that parameter)
+                        acc, seq = hv, sym(hp[0])
+                except Unsupported:
+                    pass
+        if not (acc[0] == "quant" and acc[1] == "all" and acc[2][0] == "comp" and len(acc[2][3]) == 1 and not acc[2][3][0][1]):
+            bad.append(f"a grouping is kept under [{show(acc)[:120]}], not 'every step is mutually allowed'")
+        else:
+            steps_dom = acc[2][3][0][0]
+            if steps_dom != seq:
                 bad.append("steps of a grouping are not all checked")
-                continue
-            I = inner[0]
-            step = ("bound", "for", I.node.lineno, show(I.term))
-            # inside: mutually_allowed computed from the gates of THIS step over the whole step
-            flag_names = [nm for nm in I.extra["assigned"] if nm in I.extra["init_env"]]
-            for ibp in I.extra["paths"]:
-                mas = [c for e in ibp.events if e.kind in ("assign", "effect") and e.term is not None for c in find_calls(e.term, "get_mutually_allowed")]
-                if len(mas) < 1:
-                    bad.append("a step is not tested with get_mutually_allowed")
-                    continue
+            sb = subterms(acc[2][2], lambda y: y[0] == "bound" and y[3] == show(steps_dom))
+            step = sb[0] if len(sb) == 1 else None
+            pred = acc[2][2]
+            while pred[0] == "not" and pred[1][0] == "not":
+                pred = pred[1][1]
+            mas = find_calls(pred, "get_mutually_allowed")
+            if len(mas) != 1 or pred != mas[0]:
+                bad.append("a step is not tested with get_mutually_allowed")
+            elif step is None:
+                bad.append("get_mutually_allowed does not receive all gates of the step")
+            else:
                 arg = dict(mas[0][3]).get("operations", mas[0][2][0] if mas[0][2] else NONE)
-                src = arg[3] if arg[0] == "var" else arg
+                src = arg
+                while src[0] == "var":
+                    src = src[3]
                 if subterms(src, lambda y: y[0] == "slice") or not subterms(src, lambda y: y == step):
                     bad.append("get_mutually_allowed does not receive all gates of the step")
-            apps = [c for e in bp.events if e.kind == "effect" for c in find_calls(e.term, "append") if c[2] == (seq,)]
-            accepted_after = [bp.env.get(nm) for nm in flag_names]
-            if apps and not atoms_of(bp.cond):
-                bad.append("a grouping is kept unconditionally")
-        # the flag protocol: set False + break on a failing step; append iff still True
-        src_txt = ast.unparse(f.node)
-        proto = "gate_sequence_accepted = False" in src_txt and "break" in src_txt
-        rep.check(not bad and proto, "C16.Q6", "construct_allowed_gate_sequences[keep-iff-all-steps-allowed]", f.loc, found="; ".join(sorted(set(bad))) or "kept iff no step failed", required="every step tested on all its gates; kept iff none failed",
+        rep.check(not bad, "C16.Q6", "construct_allowed_gate_sequences[keep-iff-all-steps-allowed]", f.loc, found="; ".join(sorted(set(bad))) or "kept iff no step failed", required="every step tested on all its gates; kept iff none failed",
                   what="emitted sequences may contain steps that were not accepted: " + "; ".join(sorted(set(bad))), detail="keep")
         v = p.value
         ok = v is not None and v[0] == "new" and v[1] == "GateSequenceIdentifier" and dict(v[2]).get("edge_ids") == ("attr", s, "included_edge_ids")
@@ -394,25 +443,20 @@ def q6(model: Model, rep: Report):
     why = ""
     if ok:
         L = loop_of(fall[0])
-        ok = L is not None and L.term == ops
-        if not ok:
-            why = f"outer loop over {show(L.term) if L else None}"
+        rej = _rejections(L, []) if L is not None else []
+        if L is None or len(rej) != 1:
+            ok = False
+            why = f"{len(rej)} rejecting tests" if L is not None else "no scan over the operations"
         else:
-            tgt = ("bound", "for", L.node.lineno, show(L.term))
-            for bp in L.extra["paths"]:
-                inner = [e for e in bp.events if e.kind == "loop"]
-                if len(inner) != 1 or inner[0].term != ops:
-                    ok = False
-                    why = f"inner loop over {show(inner[0].term) if inner else None} instead of all operations of the step"
-                    continue
-                I = inner[0]
-                sim = ("bound", "for", I.node.lineno, show(I.term))
-                rets = [ibp for ibp in I.extra["paths"] if ibp.exit == "return"]
-                if len(rets) != 1 or rets[0].value != FALSE:
-                    ok = False
-                    why = "a failing pair does not reject the step"
-                    continue
-                c = rets[0].cond
+            doms, bounds, c, val = rej[0]
+            if val != FALSE:
+                ok, why = False, "a failing pair does not reject the step"
+            elif len(doms) != 2 or doms[0] != ops:
+                ok, why = False, f"outer loop over {show(doms[0]) if doms else None}"
+            elif doms[1] != ops:
+                ok, why = False, f"inner loop over {show(doms[1])} instead of all operations of the step"
+            else:
+                tgt, sim = bounds
                 allowed = None
                 if c[0] == "not" and c[1][0] == "in" and c[1][1] == sim:
                     allowed = c[1][2]
